@@ -144,8 +144,70 @@ def h_variable_roundtrip(eng):
             eng.prove("roundtrip.plain_attribute", z3.BoolVal(v2.fields.get(a) is vals[a]))
 
 
-HARNESSES = [("api.load_model/reconstruction", h_reconstruction), ("model.Variable.to_dict/from_dict", h_variable_roundtrip)]
-EXPECTED_COVER = {"reconstruct.returns", "roundtrip.returns"}
+def _all_symbols_slice(fn):
+    """statements of the `if model.delay_states:` block that build the list `all_symbols`"""
+    import ast
+    blk = next(n for n in ast.walk(fn) if isinstance(n, ast.If) and isinstance(n.test, ast.Attribute)
+               and n.test.attr == "delay_states")
+
+    def touches(st):
+        for n in ast.walk(st):
+            if isinstance(n, ast.Name) and n.id == "all_symbols" and isinstance(n.ctx, ast.Store):
+                return True
+            if isinstance(n, ast.Call) and isinstance(n.func, ast.Attribute) and isinstance(n.func.value, ast.Name) \
+                    and n.func.value.id == "all_symbols" and n.func.attr in ("extend", "append", "insert"):
+                return True
+        return False
+    deps = [st for st in blk.body if touches(st)]
+    # plus simple assignments of names those statements read (e.g. a list of category names)
+    need = {n.id for st in deps for n in ast.walk(st) if isinstance(n, ast.Name) and isinstance(n.ctx, ast.Load)}
+    pre = [st for st in fn.body if isinstance(st, ast.Assign) and all(isinstance(t, ast.Name) and t.id in need for t in st.targets)
+           and isinstance(st.value, (ast.List, ast.Tuple))]
+    inner = []
+    for st in ast.walk(fn):
+        if isinstance(st, ast.With):
+            inner += [x for x in st.body if isinstance(x, ast.Assign) and all(isinstance(t, ast.Name) and t.id in need for t in x.targets)
+                      and isinstance(x.value, (ast.List, ast.Tuple))]
+    return pre + inner + deps
+
+
+def h_delay_symbol_order(eng):
+    """save_model stores delay-duration dependencies as indices into `all_symbols`; load_model
+    resolves them against its own `all_symbols`: both lists must enumerate the same symbols in the
+    same order (time, states, der_states, alg_states, inputs, constants, parameters)"""
+    w = A.make_world(eng, with_db=False, minimal_env=True)
+    A.install(eng, w)
+    cats = ["states", "der_states", "alg_states", "inputs", "constants", "parameters"]
+    counts = {c: 1 + (i % 2) for i, c in enumerate(cats)}
+    model = VObj(VClass("Model"), {"time": A.MXStub("time"), "delay_states": VList(["d"])})
+    for c in cats:
+        model.fields[c] = VList([VObj(VClass("Variable"), {"symbol": A.MXStub("%s_%d" % (c, i))}) for i in range(counts[c])])
+    model.cls.attrs["_symbols"] = _symbols_method
+    seqs = {}
+    for fname in ("save_model", "load_model"):
+        fr = eng.exec_fragment(MOD, fname, _all_symbols_slice, {"model": model}, label="all_symbols")
+        lst = fr.locals.get("all_symbols")
+        seqs[fname] = [x.label if isinstance(x, A.MXStub) else repr(x) for x in eng.iterate(lst)]
+    eng.cover("delayorder.done")
+    want = ["time"] + ["%s_%d" % (c, i) for c in cats for i in range(counts[c])]
+    eng.prove("delay.save_and_load_enumerate_symbols_in_the_same_order", z3.BoolVal(seqs["save_model"] == seqs["load_model"]),
+              save=seqs["save_model"], load=seqs["load_model"])
+    eng.prove("delay.symbol_order_is_the_function_argument_order", z3.BoolVal(seqs["load_model"] == want))
+
+
+from pyvc.values import stub as _stub
+
+
+def _symbols(eng, selfobj, variables):
+    return VList([v.fields["symbol"] for v in eng.iterate(variables)])
+
+
+_symbols._pyvc_method = True
+_symbols_method = _symbols
+
+
+HARNESSES = [("api.load_model/reconstruction", h_reconstruction), ("api.save_model+load_model/delay-symbol-order", h_delay_symbol_order), ("model.Variable.to_dict/from_dict", h_variable_roundtrip)]
+EXPECTED_COVER = {"reconstruct.returns", "roundtrip.returns", "delayorder.done"}
 BOUNDED = True
 LEVEL = "proof"
 TRUSTED = ["pyvc VC generator", "z3 5.1.0",
@@ -153,7 +215,7 @@ TRUSTED = ["pyvc VC generator", "z3 5.1.0",
            "layout of variable_metadata_function's output: one matrix per category, one column per CASADI_ATTRIBUTES entry, numel(v) consecutive rows per variable in list order (C13)"]
 ASSUMPTIONS = [
     "0-2 variables per category (enumerated), shapes symbolic; one symbolic dependency code at each enumerated (category, variable, attribute) position, all other positions NOT_MX",
-    "the delay-argument reconstruction (delay_states non-empty) is not under contract here; it is exercised by the bounded replay only",
+    "of the delay-argument reconstruction only the agreement of save_model's and load_model's symbol enumeration (the index space of the stored dependencies) is under contract; the rest is exercised by the bounded replay only",
     "save_model's side (what is written) is compared with load_model's reads by the bounded replay, not by contract",
 ]
 DROPPED = ["numeric content of CasADi objects"]
